@@ -1,6 +1,8 @@
 #!/bin/sh
 # ./run.sh <property id> <quick|thorough>
 # Builds svcheck if needed and analyses /repo's current working tree.
+# thorough = quick's analysis at its deeper settings + the self-validation catalogue for that property
+# (breaking and behaviour-preserving variants of /repo in scratch copies under /tmp, removed afterwards).
 set -u
 cd "$(dirname "$0")"
 export GOFLAGS=-mod=mod GOPROXY=off GOSUMDB=off GOTOOLCHAIN=local GOWORK=off
@@ -8,4 +10,8 @@ unset GOOS GOARCH 2>/dev/null || true
 if [ ! -x bin/svcheck ] || [ -n "$(find svcheck -newer bin/svcheck -name '*.go' -print -quit 2>/dev/null)" ]; then
   (cd svcheck && go build -o ../bin/svcheck .) || { echo "svcheck build failed"; exit 2; }
 fi
-exec ./bin/svcheck -prop "$1" -tier "${2:-quick}" -repo "${REPO:-/repo}" -verif "$(pwd)"
+tier="${2:-quick}"
+if [ "$tier" = "thorough" ]; then
+  REPO="${REPO:-/repo}" python3 tools/selfval.py --prop "$1" --jobs 8 | tail -3
+fi
+exec ./bin/svcheck -prop "$1" -tier "$tier" -repo "${REPO:-/repo}" -verif "$(pwd)"
